@@ -36,7 +36,7 @@ REPORT_POOL = ["AFPRIOR", "ACP", "AFP", "AOP", "AOPSUM", "SNVDP", "GP", "GL", "I
 
 @st.composite
 def case_strategy(draw, quick=True):
-    spec = draw(D.dataset_spec(max_loci=3, max_snvs=4, max_samples=3, max_reads=15, mapq_values=(60,), flags=False, min_reads=0))
+    spec = draw(D.dataset_spec(max_loci=3, max_snvs=4, max_samples=3, max_reads=15, mapq_values=(60,), flags=False, min_reads=0, exotic=True))
     samples = spec["samples"]
     ploidy = {s: draw(st.sampled_from([2, 2, 4, 3])) for s in samples}
     inbreeding = {s: draw(st.sampled_from([0.0, 0.0, 0.1, 0.5])) for s in samples}
